@@ -393,6 +393,7 @@ func c01Shortcuts() []c01Pair {
 	for _, p := range [][2]string{
 		{`/a/ { }`, `/a/ { { } }`}, {`/a/ { }`, `/a/ { { { } } { } }`}, {`/a/ { print }`, `/a/`}, {`{ } END { print NR }`, `{ { } } END { print NR }`},
 		{`/a/ { } { print "x" }`, `/a/ { { } } { print "x" }`},
+		{`BEGIN { print "b" } END { }`, `BEGIN { print "b" } END { { } }`}, {`{ n++ } END { } END { print n }`, `{ n++ } END { { } { } } END { print n }`},
 	} {
 		ps = append(ps, c01Pair{Family: "shortcut", Key: "corpus:G18-1", A: p[0], B: p[1], Input: "a\nb\nca\n"})
 	}
